@@ -18,25 +18,28 @@ NoD == [m |-> 0, s |-> -1]
 Account == "Assets:Src"
 Ccy == "CHF"
 
-\* entry: [cd |-> "CRDT"|"DBIT", amt, vday, bday, details |-> Seq([amt, charge])]
+\* entry: [cd |-> "CRDT"|"DBIT", amt, vday, bday, details |-> Seq([amt, charge, rev])]
+\* a detail has its own direction: rev = TRUE means opposite to the entry's (a refund inside a batch of payments)
 Signed(cd, v) == IF cd = "CRDT" THEN v ELSE DecNeg(v)
 RECURSIVE SumAmt(_, _)
-SumAmt(ds, i) == IF i > Len(ds) THEN DZero ELSE DecAdd(ds[i].amt, SumAmt(ds, i + 1))
+SumAmt(ds, i) == IF i > Len(ds) THEN DZero ELSE DecAdd(IF ds[i].rev THEN DecNeg(ds[i].amt) ELSE ds[i].amt, SumAmt(ds, i + 1))
 EntryConsistent(e) == e.details = <<>> \/ SumAmt(e.details, 1) = e.amt
 RECURSIVE Net(_, _)
 Net(es, i) == IF i > Len(es) THEN DZero ELSE DecAdd(Signed(es[i].cd, es[i].amt), Net(es, i + 1))
 Closing(opening, es) == DecAdd(opening, Net(es, 1))
 
 \* ---------------------------------------------------------------- expected ledger (entries oldest first)
-Txn(e, amt, charge, ref) ==
+Flip(cd) == IF cd = "CRDT" THEN "DBIT" ELSE "CRDT"
+Txn(e, cd, amt, charge, ref) ==
   [day |-> e.vday, eday |-> IF e.bday = e.vday THEN 0 ELSE e.bday, code |-> ref,
-   src |-> Signed(e.cd, amt),                        \* the account posting
+   src |-> Signed(cd, amt),                          \* the account posting
    charge |-> charge,                                \* Expenses:Commissions posting (0 = none)
-   dest |-> DecNeg(Signed(e.cd, DecSub(amt, charge))),   \* counter posting: what the other party got
+   dest |-> DecNeg(Signed(cd, DecSub(amt, charge))),     \* counter posting: what the other party got
    assert |-> NoD]
 TxnsOfEntry(e, k) ==
-  IF e.details = <<>> THEN <<Txn(e, e.amt, DZero, "")>>
-  ELSE [j \in 1..Len(e.details) |-> Txn(e, e.details[j].amt, e.details[j].charge, "R" \o ToString(k) \o "-" \o ToString(j))]
+  IF e.details = <<>> THEN <<Txn(e, e.cd, e.amt, DZero, "")>>
+  ELSE [j \in 1..Len(e.details) |-> Txn(e, IF e.details[j].rev THEN Flip(e.cd) ELSE e.cd, e.details[j].amt, e.details[j].charge,
+                                        "R" \o ToString(k) \o "-" \o ToString(j))]
 RECURSIVE Flatten(_, _)
 Flatten(es, k) == IF k > Len(es) THEN <<>> ELSE TxnsOfEntry(es[k], k) \o Flatten(es, k + 1)
 
